@@ -16,7 +16,9 @@ fn scenario(name: &str, multi_prefix: bool) -> ChatScn {
     let mut s = ChatScn::new(
         name,
         Cfg {
-            label: "default".into(),
+            // #y is declared in the configuration: it exists while empty, its roster is a roster all the same
+            label: "preconfigured-#y".into(),
+            channels: vec![crate::scn::CfgChan { name: "#y".into(), ..Default::default() }],
             ..Default::default()
         },
         vec![
